@@ -572,6 +572,12 @@ impl Store {
 
         let mut errors = Vec::new();
 
+        // The criteria table itself must be usable (no shadowed built-ins, no
+        // implication cycles, not too many criteria).
+        if let Err(message) = crate::criteria::check_criteria_table(&self.audits.criteria) {
+            errors.push(StoreValidateError::InvalidCriteriaTable { message });
+        }
+
         // Fixme: this should probably be a Map...? Sorted? Stable?
         let valid_criteria = Arc::new(
             self.audits
@@ -1101,6 +1107,12 @@ async fn fetch_single_imported_audit(
 
     // Construct a mapping from the foreign criteria namespace into the
     // local criteria namespace based on the criteria map from the config.
+    crate::criteria::check_criteria_table(&audit_file.criteria).map_err(|message| {
+        FetchAuditError::InvalidCriteriaTable {
+            import_name: name.to_owned(),
+            message,
+        }
+    })?;
     let foreign_criteria_mapper = CriteriaMapper::new(&audit_file.criteria);
     let foreign_to_local_mapping: Vec<_> = foreign_criteria_mapper
         .all_criteria_names()
